@@ -1013,4 +1013,10 @@ def memo_soundness(ctx, rule, module_names):
             ctx.finding(rule, f'{where}:memo-key:{",".join(missing)}', ci, st,
                         f'the entry stored by `{short(st, 70)}` is computed from {", ".join("`" + m_ + "`" for m_ in missing)}, which is not part of the key it is stored under: '
                         f'a later call that differs only in {" / ".join(missing)} is answered with this entry', where=where, module=prog.modules[mn])
+        for (cfn, caller, node, text) in memos.cached_mutable_results(tree):
+            n += 1
+            ctx.ob(rule, f'{mn}.{cfn.name}:cached-result', False, sample=f'{mn}.{caller.name}: `{text}` changes the result of the cached {cfn.name}()')
+            ctx.finding(rule, f'{mn}.{caller.name}:cached-result:{cfn.name}', None, node,
+                        f'`{text[:60]}` changes in place what {cfn.name}() returned, and {cfn.name}() is memoised ({", ".join(d for d in memos.CACHE_DECOS[:2])}): every later call with '
+                        f'the same arguments -- from any object, for the rest of the process -- gets the changed object', where=f'{mn}.{caller.name}', module=prog.modules[mn])
     ctx.note(f'{rule}: {n} memo guard(s) / keyed memo store(s) with findings or left after normalisation in {sorted(trees)}')
